@@ -139,7 +139,7 @@ PROPS["C11"] = dict(
                  crash_is_violation=True)],
     rule="udp-gate / http-gate / ws-gate: the running-tracker suites of C06, C16 and C17 (half of their cases run with an allow or deny "
          "list naming some of the torrents used): an announce for a forbidden torrent must be refused by the socket worker with the "
-         "protocol's error reply and leave no trace in any swarm worker, a permitted one must be handled as if no list existed; "
+         "protocol's error reply (the list file is REWRITTEN during the history and the tracker told to reload it by SIGUSR1, sometimes with an unreadable file: a failed reload must keep the previous list) and leave no trace in any swarm worker, a permitted one must be handled as if no list existed; "
          "access-list-files: sequences of 1..5 reloads through the real update_access_list (modes allow/deny/off) from generated files - "
          "empty, upper/lower/mixed-case hex, blank and white-space-only lines, leading/trailing blanks/tabs/VT/FF/CR, CRLF, missing final "
          "newline, a bad line (39/41/42 digits, non-hex, inner blank, non-ASCII, invalid UTF-8) at a random position, missing file, "
